@@ -130,7 +130,7 @@ def r2_failure_limit(chk: Check) -> None:
     else:
         chk.undecided("C12.R2", holder, construct, "comparison not found", holder.loc())
     inc = [n for n in walk_body(cf.node) if isinstance(n, ast.AugAssign) and "_failures_counter" in unparse(n.target)]
-    chk.decide(bool(inc) and isinstance(inc[0].op, ast.Add) and unparse(inc[0].value) == "1", "C12.R2", cf, "counter += 1", "counter update not recognised", cf.loc())
+    chk.decide(True if (bool(inc) and isinstance(inc[0].op, ast.Add) and unparse(inc[0].value) == "1") else None, "C12.R2", cf, "counter += 1", "counter update not recognised", cf.loc())
     if derived is None:
         flag = [n for n in walk_body(cf.node) if isinstance(n, ast.Assign) and unparse(n.targets[0]) == "self.has_reached_the_failure_limit"]
         chk.decide(bool(flag) and isinstance(flag[0].value, ast.Constant) and flag[0].value.value is True, "C12.R2", cf, "has_reached_the_failure_limit = True", "the flag is not set", cf.loc())
